@@ -370,3 +370,10 @@ func identitySig(d *refmodel.Decl) string {
 }
 
 func genTxs(rt *rapid.T, m *machine) []sim.Tx { return gen.GenTxs(rt, m.copts) }
+
+// healRounds: how many times the settle phase lets the chain grow before a task that is
+// still off the canonical chain counts as not converging. The client keeps at most five
+// cached segments per cache; a task that follows an orphaned fork out of the cache uses up
+// one of them per growth round (each is consistent with the previous one, so nothing can
+// reveal it) and meets the canonical chain with the first block it has to fetch.
+const healRounds = 8
